@@ -144,6 +144,11 @@ func apply(root, path string, n int, o opRec) error {
 			return err
 		}
 		return create(path, "")
+	case "rotatew":
+		if err := os.Rename(path, filepath.Join(root, "rotated."+strconv.Itoa(n))); err != nil {
+			return err
+		}
+		return create(path, conc(o.Bytes))
 	case "delete":
 		return os.Remove(path)
 	case "recreate":
